@@ -53,7 +53,8 @@ func (c *Ctx) addrPath(v ssa.Value, d int) string {
 	case *ssa.FieldAddr:
 		return c.addrPath(x.X, d+1) + "." + fieldOf(x).Name()
 	case *ssa.IndexAddr:
-		return c.addrPath(x.X, d+1) + "[]"
+		// an element of a slice of x is an element of x
+		return strings.TrimSuffix(c.addrPath(x.X, d+1), "[:]") + "[]"
 	case *ssa.Alloc:
 		if sp := spilledParam(x); sp != nil {
 			// a by-value parameter of a new helper: the caller's variable it was copied from
@@ -177,6 +178,12 @@ func (c *Ctx) term(v ssa.Value, d int) string {
 				}
 			}
 			if al, ok := x.X.(*ssa.Alloc); ok {
+				// a local kept in memory (a named result with a deferred call around, say): the value stored last
+				if spilledParam(al) == nil {
+					if sv := localStore(x); sv != nil && d < 9 {
+						return c.term(sv, d+1)
+					}
+				}
 				if sp := spilledParam(al); sp != nil {
 					// the whole of a by-value parameter that happens to be address-taken reads as the parameter
 					if _, _, lt := c.lookThrough(sp); !lt {
@@ -203,6 +210,19 @@ func (c *Ctx) term(v ssa.Value, d int) string {
 		}
 		if b, ok := x.Call.Value.(*ssa.Builtin); ok {
 			if b.Name() == "len" && len(x.Call.Args) == 1 {
+				// the length of x[:k] (or x[j:k] with constants) is k (k-j): it would have panicked otherwise
+				if sl, isSl := resolveLocal(x.Call.Args[0]).(*ssa.Slice); isSl && sl.High != nil && sl.Max == nil {
+					if hk, isK := sl.High.(*ssa.Const); isK && hk.Value != nil {
+						if sl.Low == nil {
+							return constStr(hk)
+						}
+						if lk, isLK := sl.Low.(*ssa.Const); isLK && lk.Value != nil {
+							h, _ := constant.Int64Val(hk.Value)
+							l, _ := constant.Int64Val(lk.Value)
+							return fmt.Sprint(h - l)
+						}
+					}
+				}
 				// the length of a slice made here is the length it was made with
 				if ms, isMS := resolveLocal(x.Call.Args[0]).(*ssa.MakeSlice); isMS {
 					return c.term(ms.Len, d+1)
@@ -211,6 +231,12 @@ func (c *Ctx) term(v ssa.Value, d int) string {
 			return b.Name() + "(" + strings.Join(args, ", ") + ")"
 		}
 		if sc := x.Call.StaticCallee(); sc != nil {
+			if sc.Signature.Results().Len() == 1 && d < 8 {
+				// the only result of a new single-use helper: what the helper returns
+				if rv := c.helperResult(x, 0); rv != nil && c.inlinable(sc) == nil {
+					return c.term(rv, d+1)
+				}
+			}
 			if rv := c.inlinable(sc); rv != nil && len(sc.Params) == len(x.Call.Args) && d < 8 {
 				bind := map[*ssa.Parameter]ssa.Value{}
 				for i, p := range sc.Params {
@@ -897,6 +923,7 @@ func (c *Ctx) helperResults(call *ssa.Call, idx int) []ssa.Value {
 		}
 	}
 	var out []ssa.Value
+	var zero ssa.Value
 	seen := map[ssa.Value]bool{}
 	for _, b := range g.Blocks {
 		r, ok := b.Instrs[len(b.Instrs)-1].(*ssa.Return)
@@ -905,6 +932,7 @@ func (c *Ctx) helperResults(call *ssa.Call, idx int) []ssa.Value {
 		}
 		v := resolveLocal(r.Results[idx])
 		if k, isK := v.(*ssa.Const); isK && (k.Value == nil || k.IsNil()) && status {
+			zero = v // counts only when nothing else is ever returned there
 			continue
 		}
 		if !seen[v] {
@@ -912,5 +940,37 @@ func (c *Ctx) helperResults(call *ssa.Call, idx int) []ssa.Value {
 			out = append(out, v)
 		}
 	}
+	if len(out) == 0 && zero != nil {
+		return []ssa.Value{zero}
+	}
 	return out
+}
+
+// throughHelper: a value that is a result of a new single-use helper stands for what the helper returns there; a
+// parameter of such a helper for the argument it is called with.
+func (c *Ctx) throughHelper(v ssa.Value) ssa.Value {
+	for i := 0; i < 6; i++ {
+		v = resolveLocal(v)
+		switch x := v.(type) {
+		case *ssa.Extract:
+			if call, ok := x.Tuple.(*ssa.Call); ok {
+				if rv := c.helperResult(call, x.Index); rv != nil {
+					v = rv
+					continue
+				}
+			}
+		case *ssa.Call:
+			if rv := c.helperResult(x, 0); rv != nil && x.Call.StaticCallee() != nil && x.Call.StaticCallee().Signature.Results().Len() == 1 {
+				v = rv
+				continue
+			}
+		case *ssa.Parameter:
+			if arg, _, ok := c.lookThrough(x); ok {
+				v = arg
+				continue
+			}
+		}
+		break
+	}
+	return v
 }
